@@ -77,7 +77,7 @@ def simulate(ctx: Ctx, label, c, *, num, depth, seed, shards=None, init_first=Tr
 
 def err_key(errors):
     e = errors[0]
-    for k in ("exec_unexpected", "reinit_accepted", "initial_method_skipped", "listener_cmd_accepted"):
+    for k in ("exec_unexpected", "reinit_accepted", "initial_method_skipped", "listener_cmd_accepted", "stale_component", "registry_shared"):
         if e.startswith(k):
             return k
     return "harness|" + e.split()[0]
